@@ -10,6 +10,12 @@ use std::collections::BTreeSet;
 
 pub struct C08;
 
+const DUAL_ROLE: [&str; 3] = [
+    "struct GBuffer { @location(0) albedo: vec4<f32>, @location(1) normal: vec4<f32> }\n@group(0) @binding(0) var<uniform> defaults: GBuffer;\n@fragment fn fs_main() -> GBuffer { return defaults; }\n",
+    "struct Varyings { @builtin(position) pos: vec4<f32>, @location(0) uv: vec2<f32> }\nstruct Store { items: array<Varyings, 4> }\n@group(0) @binding(0) var<storage, read> store: Store;\n@vertex fn vs_main(@builtin(vertex_index) i: u32) -> Varyings { return store.items[i % 4u]; }\n",
+    "struct Particle { pos: vec4<f32>, vel: vec4<f32> }\n@group(0) @binding(0) var<storage, read_write> particles: array<Particle>;\nstruct OnlyOut { @location(0) c: vec4<f32> }\n@fragment fn fs_main() -> OnlyOut { var o: OnlyOut; o.c = particles[0].pos; return o; }\n",
+];
+
 impl Property for C08 {
     fn id(&self) -> &'static str {
         "C08"
@@ -22,6 +28,11 @@ impl Property for C08 {
         let n = if tier == Tier::Quick { 400 } else { 4000 };
         let grid = option_grid();
         let mut out = vec![];
+        // hand-written worlds the random generator does not produce: a struct that is BOTH reachable from a module-scope
+        // variable AND an entry point's return type (must be emitted), directly and through nesting
+        for (k, wgsl) in DUAL_ROLE.iter().enumerate() {
+            out.push(Case::new(format!("dual-role{k}"), wgsl.to_string(), Params::with_opts(WriteOptions::default())));
+        }
         for i in 0..n {
             let w = world_for(seed, 0xC08_0000, i);
             if let Ok(m) = naga_parse(&w.wgsl) {
